@@ -170,8 +170,16 @@ def l2_equiv(t1, t2, lens, dup, u, kw_only=False):
     return None
 
 
+@python.define
+def RecSub(a: _ty.Any = 0, ab: _ty.Any = 0, x_ref: _ty.Any = 0, x: _ty.Any = 0) -> tuple:
+    import vf.rec as R
+    R.rec("Rec", a, ab, x_ref, x)
+    return (a, ab, x_ref, x)
+
+
 ILLFORMED = ["dup_field", "missing_value", "extra_value", "combiner_not_split", "combine_without_split",
-             "ndim_unsplit_field", "split_twice", "combiner_unknown_field", "dup_field_nested"]
+             "ndim_unsplit_field", "split_twice", "combiner_unknown_field", "dup_field_nested", "extra_value_substring_name",
+             "extra_value_substring_name2", "missing_value_substring_name"]
 
 
 def l2_illformed(kind, na, nb):
@@ -202,6 +210,12 @@ def l2_illformed(kind, na, nb):
             t = Rec().split("a", a=a).split("b", b=b)
         elif k == "combiner_unknown_field":
             t = Rec().split("a", a=a).combine("zz")
+        elif k == "extra_value_substring_name":
+            t = RecSub().split("ab", ab=a, a=b)            # 'a' is not split although its name is part of 'ab'
+        elif k == "extra_value_substring_name2":
+            t = RecSub().split(["x_ref", "a"], x_ref=a, a=b, x=a)
+        elif k == "missing_value_substring_name":
+            t = RecSub().split(["ab", "a"], ab=a)
         out = t(cache_root=d, worker="debug")
     except Exception as e:
         raised = e
